@@ -187,11 +187,11 @@ func Emit(progs []*sdl.Program) string {
 			}
 		}
 	}
-	b.WriteString("// Code generated by verifsim/gen. DO NOT EDIT.\n\npackage progs\n\nimport (\n\t\"reflect\"\n\n\t\"github.com/go-kid/ioc/container\"\n\t\"github.com/go-kid/ioc/syslog\"\n\n")
+	b.WriteString("// Code generated by verifsim/gen. DO NOT EDIT.\n\npackage progs\n\nimport (\n\t\"reflect\"\n\n\t\"github.com/go-kid/ioc/container\"\n\t\"github.com/go-kid/ioc/definition\"\n\t\"github.com/go-kid/ioc/syslog\"\n\n")
 	if hasAlt {
 		b.WriteString("\taltprogs \"verifbatch/alt/progs\"\n")
 	}
-	b.WriteString("\t\"verifbatch/ifc\"\n\t\"verifsim/simrt\"\n)\n\nvar _ = simrt.ErrInjected\nvar _ syslog.Logger\nvar _ container.Factory\nvar _ ifc.Marker\n\n")
+	b.WriteString("\t\"verifbatch/ifc\"\n\t\"verifsim/simrt\"\n)\n\nvar _ = simrt.ErrInjected\nvar _ syslog.Logger\nvar _ container.Factory\nvar _ definition.PriorityComponent\nvar _ ifc.Marker\n\n")
 	var typeNames []string
 	localTypes := map[string]bool{}
 	for _, p := range progs {
@@ -490,6 +490,12 @@ func emitType(b *strings.Builder, p *sdl.Program, t *sdl.Type) {
 		return
 	}
 	fmt.Fprintf(b, "type %s struct {\n\tSim *simrt.Handle\n", t.Name)
+	if t.OrderMixin && (t.OrderClass == "ordered" || t.OrderClass == "priority") {
+		b.WriteString("\tsimrt.OrdMix\n")
+		if t.OrderClass == "priority" {
+			b.WriteString("\tdefinition.PriorityComponent\n")
+		}
+	}
 	for _, bs := range bases {
 		fmt.Fprintf(b, "\t%s\n", bs)
 	}
@@ -529,7 +535,14 @@ func emitType(b *strings.Builder, p *sdl.Program, t *sdl.Type) {
 	case "closer":
 		fmt.Fprintf(b, "%sClose() error { return c.Sim.OnClose(c) }\n", r)
 	}
-	switch t.OrderClass {
+	if t.Role == "runner" && t.AlsoCloser {
+		fmt.Fprintf(b, "%sClose() error { return c.Sim.OnClose(c) }\n", r)
+	}
+	oc := t.OrderClass
+	if t.OrderMixin && (oc == "ordered" || oc == "priority") {
+		oc = "mixin" // both methods are promoted from embedded structs
+	}
+	switch oc {
 	case "ordered":
 		fmt.Fprintf(b, "%sOrder() int { return c.Sim.Ord }\n", r)
 	case "priority":
